@@ -341,9 +341,9 @@ int main(int argc, char **argv) {
     }
     // ---- run the field mutations (each with a seeded declared size / handler; all of them in thorough)
     auto run_mut = [&](const Mut &m, int fmt, const Bytes &b, const std::string &label, const std::string &cls) {
-      if (thorough) {
-        for (auto &d : decls) for (int md = ALL; md <= SETERR; ++md)
-          one_read(b.b, m.f, fmt == 1 ? "text" : "binary", label, cls, d.nv, d.nc, d.cls, (Mode)md, (int)k);
+      if (thorough) {       // every declared size class, seeded handler
+        for (auto &d : decls)
+          one_read(b.b, m.f, fmt == 1 ? "text" : "binary", label, cls, d.nv, d.nc, d.cls, pick_mode(), (int)k);
       } else {
         D d = pick_decl(); Mode md = pick_mode();
         one_read(b.b, m.f, fmt == 1 ? "text" : "binary", label, cls, d.nv, d.nc, d.cls, md, (int)k);
@@ -382,7 +382,7 @@ int main(int argc, char **argv) {
           }
         }
       }
-      int nflip = thorough ? 200 : 12;
+      int nflip = thorough ? 60 : 12;
       for (int i = 0; i < nflip && !b.b.empty(); ++i) {
         Bytes t = b;
         int nf = 1 + rng() % 3;
